@@ -352,13 +352,48 @@ fn select_rows(s: &mut Session, q: &Q, ty: &str, evs: &[Ev]) -> Option<Vec<Vec<S
     Some(out)
 }
 
+/// Why did the selection lose stored rows? For up to three missing keys: the event id the engine
+/// reports for the row when asked for it alone, and the key of a *returned* row that carries the
+/// same event id (the response writer de-duplicates on event_id).
+fn diagnose_missing(s: &mut Session, q: &Q, ty: &str, missing: &[i64]) -> String {
+    let Some(all) = s.cmd(&q.text(ty, false, Some("k"))) else { return "child died".into() };
+    let ids = all.col("event_id");
+    let ks = all.col("k");
+    let mut out = vec![];
+    for k in missing.iter().take(3) {
+        let one = s.cmd(&format!("QUERY {ty} WHERE k = {k} RETURN [k]"));
+        let id = one.as_ref().and_then(|r| r.col("event_id").first().cloned());
+        let twin = id.as_ref().and_then(|id| ids.iter().zip(ks.iter()).find(|(i, kk)| *i == id && kk.as_i64() != Some(*k)).map(|(_, kk)| kk.clone()));
+        let cnt = s.cmd(&format!("QUERY {ty} WHERE k = {k} COUNT")).map(|r| format!("{:?}", r.rows)).unwrap_or_default();
+        let cnt_by = s.cmd(&format!("QUERY {ty} COUNT BY k")).map(|r| r.rows.iter().any(|row| row.first().and_then(|v| v.as_str()) == Some(&k.to_string()))).unwrap_or(false);
+        out.push(format!(
+            "k={k}: alone {} row(s), event_id {:?}, returned row with the same event_id: k={:?}, `WHERE k = {k} COUNT` -> {cnt}, group {k} in `COUNT BY k`: {cnt_by}",
+            one.map(|r| r.rows.len()).unwrap_or(0),
+            id,
+            twin
+        ));
+    }
+    // does a FLUSH change what the selection sees? (were the rows sitting in a memtable / passive buffer?)
+    s.cmd("FLUSH");
+    s.ctl(serde_json::json!({"ctl": "await_flush"}));
+    let after = s.cmd(&q.text(ty, false, Some("k"))).map(|r| r.rows.len()).unwrap_or(0);
+    format!("selection now returns {} rows, after FLUSH {} rows; {}", ks.len(), after, out.join("; "))
+}
+
 pub fn stream_e2e(a: &Args) {
     let offsets = offset_enabled();
     let mut s = Stream::create(&a.out, "e2e");
     let per_session = 12u64;
     let mut sess: Option<Session> = None;
+    // `--range A B` (extra args): replay the cases A..=B in one session chain (a history's session is
+    // shared by 12 consecutive cases, so a case may depend on what its predecessors left behind)
+    let range: Option<(u64, u64)> = a
+        .extra
+        .iter()
+        .position(|x| x == "--range")
+        .and_then(|p| Some((a.extra.get(p + 1)?.parse().ok()?, a.extra.get(p + 2)?.parse().ok()?)));
     for i in 0..a.cases {
-        if a.only.is_some_and(|o| o != i) {
+        if a.only.is_some_and(|o| o != i) || range.is_some_and(|(lo, hi)| i < lo || i > hi) {
             continue;
         }
         let mut r = Rng::for_case(a.seed, "e2e", i);
@@ -460,6 +495,29 @@ pub fn stream_e2e(a: &Args) {
         // visible twice, and aggregates do not de-duplicate: C03's subject)
         se.ctl(serde_json::json!({"ctl": "await_flush"}));
         std::thread::sleep(std::time::Duration::from_millis(20));
+        // … and every stored event of the type is visible in two consecutive reads
+        let mut stable = 0;
+        for _ in 0..100 {
+            let seen = se.cmd(&format!("QUERY {ty} RETURN [k]")).map(|x| {
+                let mut ks: Vec<i64> = x.col("k").iter().filter_map(|v| v.as_i64()).collect();
+                ks.sort();
+                ks.dedup();
+                ks.len()
+            });
+            if seen == Some(want0) {
+                stable += 1;
+                if stable == 2 {
+                    break;
+                }
+            } else {
+                stable = 0;
+                std::thread::sleep(std::time::Duration::from_millis(20));
+                se.ctl(serde_json::json!({"ctl": "await_flush"}));
+            }
+        }
+        if stable < 2 {
+            s.tally("stored-events-never-all-visible");
+        }
         s.tally_n("events", n as u64);
         s.tally_n("flushes", flushes);
         if with_other {
@@ -491,15 +549,34 @@ pub fn stream_e2e(a: &Args) {
             if q.limit.is_some() && want_offset && (off == 0 || offsets) {
                 q.offset = Some(off);
             }
-            let Some(sel) = select_rows(se, &q, &ty, &evs) else {
-                s.oracle_fail(i, "-", "selection failed");
-                continue;
-            };
-            let Some(rep) = se.cmd(&q.text(&ty, true, None)) else {
+            // The property compares two answers on ONE state: the aggregate query is bracketed by
+            // two reads of the selection; if they differ (rows still becoming visible / a flush still
+            // settling under load) the three reads are repeated, and a state that never settles is
+            // not judged.
+            let qtext = q.text(&ty, true, None);
+            let mut bracket = None;
+            for attempt in 0..4 {
+                if attempt > 0 {
+                    s.tally("state-unsettled:retry");
+                    std::thread::sleep(std::time::Duration::from_millis(100));
+                    se.ctl(serde_json::json!({"ctl": "await_flush"}));
+                }
+                let Some(before) = select_rows(se, &q, &ty, &evs) else { break };
+                let Some(rep) = se.cmd(&qtext) else { break };
+                let Some(after) = select_rows(se, &q, &ty, &evs) else { break };
+                if before == after {
+                    bracket = Some((before, rep));
+                    break;
+                }
+            }
+            if se.dead {
                 s.oracle_fail(i, "-", "child died on the aggregate query");
                 break;
+            }
+            let Some((sel, rep)) = bracket else {
+                s.tally("state-unsettled:not-judged");
+                continue;
             };
-            let qtext = q.text(&ty, true, None);
             if !rep.ok() {
                 s.oracle_fail(i, "-", &format!("aggregate query failed: {qtext}: {}", rep.raw));
                 continue;
@@ -564,33 +641,49 @@ pub fn stream_e2e(a: &Args) {
             if ok {
                 s.oracle_ok();
             } else {
+                // OFFSET m skipped twice (finding C09-agg-offset-twice): every reported group is right
+                // w.r.t. `full`, but only max(0, min(LIMIT, groups − m) − m) groups come back
+                let offset_twice = |full: &Table| {
+                    let m = q.offset.unwrap_or(0);
+                    m > 0
+                        && got.iter().all(|(k, v)| full.get(k) == Some(v))
+                        && got.len() == full.len().saturating_sub(m).min(q.limit.unwrap_or(usize::MAX)).saturating_sub(m)
+                };
+                let log_ref = reference(&q, &log_sel);
                 let class = if !clean && q.ctx.is_none() {
                     // rows of an earlier history were still in memory
                     "agg-ignores-for-since-type"
-                } else if selection_short && (if limited { limited_ok(&reference(&q, &log_sel)) } else { got == reference(&q, &log_sel) }) {
-                    // the aggregate is right about the stored rows; the *selection* lost some
+                } else if selection_short
+                    && (if limited { limited_ok(&log_ref) || offset_twice(&log_ref) } else { got == log_ref })
+                {
+                    // the aggregate is right about the stored rows (up to the OFFSET finding); the
+                    // *selection* lost some
                     "selection-misses-rows"
                 } else if uniq_int {
                     "count-unique-typed-int-column"
-                } else if leaked.is_empty()
-                    && q.offset.is_some_and(|o| o > 0)
-                    && got.iter().all(|(k, v)| exp.get(k) == Some(v))
-                    && got.len()
-                        == exp.len().saturating_sub(q.offset.unwrap_or(0)).min(q.limit.unwrap_or(usize::MAX)).saturating_sub(q.offset.unwrap_or(0))
-                {
-                    // every reported group is right, but OFFSET was skipped twice
+                } else if leaked.is_empty() && offset_twice(&exp) {
                     "agg-offset-applied-twice"
                 } else if !leaked.is_empty() {
                     "agg-ignores-for-since-type"
                 } else {
                     "-"
                 };
+                let diag = if selection_short {
+                    let missing: Vec<i64> = log_sel
+                        .iter()
+                        .filter(|r| !sel.contains(r))
+                        .filter_map(|r| if let Sc::Int(k) = r[3] { Some(k) } else { None })
+                        .collect();
+                    format!(" | missing from the selection: k={:?}: {}", missing, diagnose_missing(se, &q, &ty, &missing))
+                } else {
+                    String::new()
+                };
                 s.tally(&format!("departure:{class}"));
                 s.oracle_fail(
                     i,
                     class,
                     &format!(
-                        "{qtext} -> {} but the fold over the {} selected rows (store log: {}) gives {} ({} non-selected events pass the WHERE clause; stored {:?})",
+                        "{qtext} -> {} but the fold over the {} selected rows (store log: {}) gives {} ({} non-selected events pass the WHERE clause; stored {:?}){diag}",
                         table_line(&got),
                         sel.len(),
                         log_sel.len(),
